@@ -9,7 +9,14 @@ CFG = {'assumptions': ['f64 inputs cross the boundary as bit patterns and are de
                 'GeoModel/Ops/C05.lean', 'GeoProofs/Lemmas/C05Area.lean', 'GeoProofs/Lemmas/C05Winding.lean',
                 'GeoProofs/Lemmas/C05PConvex.lean', 'GeoProofs/Lemmas/C05PRotate.lean',
                 'GeoProofs/Lemmas/C05PFloat.lean', 'GeoModel/TRANPrelude.lean', 'GeoModel/Gen/AreaGen.lean',
-                'GeoProofs/Lemmas/TRANArea.lean'],
+                'GeoProofs/Lemmas/TRANArea.lean', 'GeoModel/Valid.lean',
+                'GeoProofs/Lemmas/SMLXSimple.lean', 'GeoProofs/Lemmas/SMLXPivot.lean',
+                'GeoProofs/Lemmas/SMLXLevel.lean', 'GeoProofs/Lemmas/SMLXFaces.lean',
+                'GeoProofs/Lemmas/SMLXSign.lean', 'GeoProofs/Lemmas/SMLXTurn.lean',
+                'GeoProofs/Lemmas/SMLXPivotSide.lean', 'GeoProofs/Lemmas/SMLXMain.lean',
+                'GeoProofs/Lemmas/SMLXSegs.lean', 'GeoProofs/Lemmas/SMLXSimpleEq.lean',
+                'GeoProofs/Lemmas/WINDJordan.lean', 'GeoProofs/Lemmas/WINDLink.lean',
+                'GeoProofs/Lemmas/C12QCross.lean', 'GeoProofs/Lemmas/C12QSimple.lean'],
  'translator': True,
  'rule': 'star-shaped (oblique, non-convex), two-sided histogram (rectilinear, collinear vertices) and junk '
          'rings on 3..8 grids under the 6 grid similarities, random start vertex (least vertex forced last in '
@@ -24,11 +31,12 @@ CFG = {'assumptions': ['f64 inputs cross the boundary as bit patterns and are de
          'triv (zero area geometry, open/short ring, no simple ring to orient) are not counted',
  'trusted_base': ['the exactness bound of regime G (all coordinates integers, sum over rings of n*2*B^2 <= 2^52 '
                   'after the shift) is evaluated per case by the driver, not proved',
-                  'the decision "simple ring" (domain of the winding clause) is the Lean definition '
-                  'GeoModel/SimpleRing.lean; that the lexicographically least vertex of a simple ring is '
-                  'strictly convex (so the pivot orientation equals the sign of the area) is a spec-adequacy '
-                  'assumption tied by correspondence, proved for convex rings (triangles, Rect polygon forms, '
-                  'quadrilaterals with equal turn signs, any ring lying on one side of each of its edges) only',
+                  'the decision "simple ring" (domain of the winding clauses) is the Lean definition simpleRing '
+                  '(GeoModel/SimpleRing.lean, orientation tests; what the driver branches on); it is proved equal, as a '
+                  'Boolean function, to ringSimple (GeoModel/Valid.lean, via line_intersection; the definition the '
+                  'lemmas use): simpleRing_eq_ringSimple. That winding_order = sign of the exact area on such rings '
+                  'is a theorem (windingOrder_eq_sign_area), no longer an assumption; what stays trusted is that '
+                  'these definitions say what "simple closed ring" means',
                   'the rounding tolerance of regime R is a stated bound, not a theorem (the proved bound '
                   'area_rounding_error is the worst-case gamma_(n+3) * sum of product magnitudes under the standard '
                   'model without underflow; it is quadratic in n where the tolerance is linear)',
@@ -42,9 +50,8 @@ MANIFEST = {'note': 'Trusted: Lean 4.33 kernel (axioms propext, Classical.choice
          'Rust harness, generators and line protocol (sampling, not proof). The theorems are about the '
          'hand-written model; the model is tied to the code by running both on the same inputs each run. '
          'Floating point: bit-exact agreement is demanded on integer inputs within a per-case exactness '
-         'bound, a stated rounding tolerance elsewhere. Winding = sign of area for general simple rings '
-         'rests on a geometric fact that is not proved (tied by correspondence on thousands of non-convex '
-         'rings per run). One defect repaired (Triangle::signed_area lacked the conditioning shift).',
+         'bound, a stated rounding tolerance elsewhere. Winding = sign of area is proved for every simple '
+         'ring (simpleRing, the definition the driver uses, proved equal to ringSimple of GeoModel/Valid.lean). One defect repaired (Triangle::signed_area lacked the conditioning shift).',
  'technique': 'Lean 4 proof (telescoping/algebraic identities over exact rationals, list induction, mutual '
               'induction over the geometry tree) + model/implementation correspondence on generated rings, '
               'polygons and collections',
@@ -64,7 +71,24 @@ MANIFEST = {'note': 'Trusted: Lean 4.33 kernel (axioms propext, Classical.choice
          'it, orient yields the requested windings and is idempotent; a pentagram shows that equal turn signs '
          'alone do not give the fan property; under the hypothesis that the least point is not visited twice '
          '(_partial): reversal flips the winding, the start vertex is irrelevant (any rotation; a pinched ring '
-         'shows the hypothesis is needed), orient yields the requested windings and is idempotent. Rounding: '
+         'shows the hypothesis is needed), orient yields the requested windings and is idempotent. '
+         'FOR EVERY SIMPLE RING (ringSimple of GeoModel/Valid.lean: closed, >= 3 distinct vertices after merging '
+         'repeated consecutive coordinates, edges meet only in the common vertex of consecutive ones; no other '
+         'hypothesis, repeated coordinates allowed; simpleRing_eq_ringSimple: the same Boolean function as the '
+         'simpleRing of GeoModel/SimpleRing.lean by which the driver decides the domain - segsMeet <-> the closed '
+         'segments share a point, foldsBack <-> consecutive segments overlap): windingOrder_eq_sign_area (stated '
+         'for simpleRing) / windingOrder_eq_sign_area_simple (for ringSimple) - winding_order is '
+         'CounterClockwise iff twice_signed_ring_area > 0, Clockwise iff < 0, never None, and the exact area is '
+         'never 0 (proof: side constant L of the ring from the Jordan-curve lemmas; the shoelace sum cut into '
+         'horizontal slabs is sum 2 h F(mid level), F = signed sum of crossing abscissae, and summation by parts '
+         'over the sorted crossings gives (2L-1) F > 0; in the slab next to the least vertex edges cannot change '
+         'their left-to-right order, so the left-most crossing is on an edge at the least vertex and '
+         '(2L-1) cross(prev, pivot, next) > 0); pivotOnce_of_simple (the merged ring satisfies PivotOnce), '
+         'windingOrder_reverse_simple, windingOrder_rotate_simple (any number of steps), orient_post_simple, '
+         'orient_idem_simple, orient_exact_simple (orient returns the exterior with exactly the requested winding '
+         'and every hole with the opposite one) and polygonArea_pos_iff_ccw (signed_area > 0 iff the simple exterior '
+         'is counter-clockwise, < 0 iff clockwise, when the holes do not outweigh it) - the _partial statements with PivotOnce discharged on the '
+         'property\'s domain. Rounding: '
          'under the standard model fl(x) = x(1+d), |d| <= u, for an arbitrary rounding function applied after '
          'every operation of twice_signed_ring_area, |computed - exact| <= ((1+u)^(n+3) - 1) * sum over edges '
          'of (|dx_i dy_i+1| + |dy_i dx_i+1|) of the shifted coordinates, and (1+u)^k - 1 <= ku/(1-ku). The real code is run on the same inputs: areas '
